@@ -125,4 +125,11 @@ theorem RunsL.wrapped {m fx body s ob} (en ex : List Nat) (h : RunsL fns m fx bo
   · intro s' hs'; subst hs'; exact RunsL.probes_only ex
   · intro hx; cases ob <;> simp_all [Out.isNormal, Out.onNormal]
 
+/-- probes behind a fragment fire when it completes normally -/
+theorem RunsL.probes_post {m fx body s ob} (ex : List Nat) (h : RunsL fns m fx body s ob) :
+    RunsL fns m fx (body ++ probes ex) s (ob.onNormal (·.fire ex)) := by
+  apply RunsL.append h
+  · intro s' hs'; subst hs'; exact RunsL.probes_only ex
+  · intro hx; cases ob <;> simp_all [Out.isNormal, Out.onNormal]
+
 end Orca.Sem
